@@ -123,8 +123,8 @@ class Harness:
                 out.append(os.path.relpath(os.path.join(base, f), self.root))
         return sorted(out)
 
-    def remote(self, digest_of="good"):
-        return self.B.RemoteFileMetadata(filename="remote.csv", url="https://example.invalid/x", checksum=sha_of(PAYLOADS[digest_of]))
+    def remote(self, digest_of="good", filename="remote.csv"):
+        return self.B.RemoteFileMetadata(filename=filename, url="https://example.invalid/x", checksum=sha_of(PAYLOADS[digest_of]))
 
 
 def result_id(r):
@@ -176,6 +176,13 @@ class RemoteSeqUnit(Unit):
             c = self.mk(rng, n_retries=n, script=script, initial=rng.choice([None, None, "old"]), deia=rng.random() < 0.3,
                         validate=rng.random() < 0.85, unpack=rng.random() < 0.2)
             cases.append(c)
+        # the remote file and the cache entry carry the SAME name ("traffic.csv" downloaded, "traffic.csv" cached; with a ./ prefix): the
+        # two live in different directories and have nothing to do with each other
+        for script in (["good"], ["urlerror", "good"], ["gzgood"]):
+            for fn in ("ds", "./ds"):
+                c = self.mk(rng, script=script, initial=None)
+                c["remote_filename"] = fn
+                cases.append(c)
         return cases
 
     def mk(self, rng, dim=True, deia=False, initial=None, script=("good",), n_retries=3, validate=True, unpack=False):
@@ -211,7 +218,7 @@ class RemoteSeqUnit(Unit):
             try:
                 with warnings.catch_warnings():
                     warnings.simplefilter("ignore")
-                    r = h.B.load_csv_dataset_from_remote(h.remote(c["digest_of"]), "ds", "fam", data_home=h.root, download_if_missing=c["dim"],
+                    r = h.B.load_csv_dataset_from_remote(h.remote(c["digest_of"], c.get("remote_filename", "remote.csv")), "ds", "fam", data_home=h.root, download_if_missing=c["dim"],
                                                          download_even_if_available=c["deia"], validate_checksum=c["validate"],
                                                          n_retries=c["n_retries"], delay=0.0, gzip=c["gzip"], unpack_dataset_columns=c["unpack"])
                 o = {"result": result_id(r), "tuple": isinstance(r, tuple)}
